@@ -1088,9 +1088,10 @@ esl_rsq_XShuffleKmers(ESL_RANDOMNESS *r, const ESL_DSQ *dsq, int L, int K, ESL_D
   while (W > 1) 
     {				/* use memmove, not memcpy, because i==W-1 is an overlap case */
       i = esl_rnd_Roll(r, W);	                                                 /* pick a word          */
-      memmove(swap,                   shuffled + P + i*K,     K * sizeof(char)); /* copy it to tmp space */
-      memmove(shuffled + P + i*K,     shuffled + P + (W-1)*K, K * sizeof(char)); /* move word W-1 to i   */
-      memmove(shuffled + P + (W-1)*K, swap,                   K * sizeof(char)); /* move word i to W-1   */
+      /* residues are shuffled[1..L]; the +1 skips the leading sentinel byte shuffled[0] */
+      memmove(swap,                       shuffled + 1 + P + i*K,     K * sizeof(char)); /* copy it to tmp space */
+      memmove(shuffled + 1 + P + i*K,     shuffled + 1 + P + (W-1)*K, K * sizeof(char)); /* move word W-1 to i   */
+      memmove(shuffled + 1 + P + (W-1)*K, swap,                       K * sizeof(char)); /* move word i to W-1   */
       W--;
     }
   free(swap);
